@@ -3,6 +3,7 @@ package main
 // Solver portfolio: z3 4.8.12, z3 5.1.0 (z3-new), cvc5 1.0 raced per obligation.
 
 import (
+	"regexp"
 	"bytes"
 	"context"
 	"fmt"
@@ -150,8 +151,8 @@ func solve(script string, dir string, name string, timeout time.Duration, modelT
 			}
 			// thorough tier: wait for a confirmation by a different solver, but not for ever
 			g := timeout / 4
-			if g > 20*time.Second {
-				g = 20 * time.Second
+			if g > 6*time.Second {
+				g = 6 * time.Second
 			}
 			grace = time.After(g)
 		} else if (x.ans == "unsat" || x.ans == "sat") && res.answer != "disagree" && x.ans != res.answer {
@@ -308,6 +309,10 @@ func dischargeAll(obls []*Obligation, dir string, timeout time.Duration, tier st
 		go func(o *Obligation) {
 			defer wg.Done()
 			defer func() { <-sem2 }()
+			if by := caseSplit(o, dir, timeout); by != "" {
+				o.Status, o.Answer, o.Solver = "discharged", "unsat", by
+				return
+			}
 			r := solve(o.script, dir, o.Name+"_retry", 2*timeout, nil, false)
 			if r.answer == "unsat" {
 				o.Status, o.Answer, o.Solver, o.Secs = "discharged", "unsat", r.solver+" (retry)", o.Secs+r.secs
@@ -317,4 +322,60 @@ func dischargeAll(obls []*Obligation, dir string, timeout time.Duration, tier st
 		}(o)
 	}
 	wg.Wait()
+}
+
+var reOneIntBinder = regexp.MustCompile(`^\(\((\S+) Int\)\)$`)
+var reLoopSlice = regexp.MustCompile(`\(declare-const (lh_\w+) Slice\)`)
+
+// caseSplit: proof by cases for a goal "forall k: Int. body" that no solver decides as a whole: the bound variable
+// becomes a constant q and the obligation is shown once under q < len(s) and once under q >= len(s), for a slice s
+// that is a loop-head value (the typical split after an append inside the loop). Both queries must be unsat.
+func caseSplit(o *Obligation, dir string, timeout time.Duration) string {
+	if os.Getenv("GOVC_DEBUG") != "" {
+		fmt.Fprintf(os.Stderr, "caseSplit %s: prefix=%d goal=%.60s\n", o.Name, len(o.prefix), o.goal)
+	}
+	if o.prefix == "" || !strings.HasPrefix(o.goal, "(forall ((") {
+		return ""
+	}
+	parts := topArgs(o.goal) // [binders, body]
+	if len(parts) != 2 {
+		return ""
+	}
+	m := reOneIntBinder.FindStringSubmatch(parts[0])
+	if m == nil {
+		return ""
+	}
+	q := m[1]
+	body := parts[1]
+	if strings.HasPrefix(body, "(! ") {
+		a := topArgs(body)
+		if len(a) == 0 {
+			return ""
+		}
+		body = a[0]
+	}
+	cands := reLoopSlice.FindAllStringSubmatch(o.prefix, -1)
+	for n, c := range cands {
+		if n >= 3 {
+			break
+		}
+		ok := true
+		var by string
+		for i, side := range []string{"(< " + q + " (sl_len " + c[1] + "))", "(>= " + q + " (sl_len " + c[1] + "))"} {
+			// the case condition goes into the quantified goal itself (solvers do better with it there than with a
+			// hand-skolemised constant)
+			goal := strings.Replace(o.goal, body, "(=> "+side+" "+body+")", 1)
+			script := o.prefix + "(assert (and " + o.path + " (not " + goal + ")))\n(check-sat)\n"
+			r := solve(script, dir, fmt.Sprintf("%s_case%d_%d", o.Name, n, i), timeout, nil, false)
+			if r.answer != "unsat" {
+				ok = false
+				break
+			}
+			by = r.solver
+		}
+		if ok {
+			return by + " (by cases on " + q + " < len(" + c[1] + "))"
+		}
+	}
+	return ""
 }
